@@ -123,7 +123,8 @@ def plans(ctx, m):
                                                                  VC1={"bare", "quoted"}, K=2, Bases={"deliver"})))
         P.append(dict(name="triples-auth", nv=2, w=4, consts=consts(m, Scope=auth, VC1={"bare"}, K=3, NMax=2)))
         # near-miss programs: one setting spelled twice (parse verdict observed, not predicted)
-        P.append(dict(name="nm-route", nv=2, w=4, consts=consts(m, Scope=ingress_side, VC1={"bare", "bad"}, K=1, NMax=1, NmScope=set(m.ids))))
+        P.append(dict(name="nm-route", nv=2, w=4, consts=consts(m, Scope=ingress_side, VC1={"bare", "bad"}, K=1, NMax=1, NmScope=set(m.ids),
+                                                            Bases={"pull", "none"})))
         P.append(dict(name="nm-deliver", nv=2, w=2, consts=consts(m, Scope=m.under("r.deliver", "secrets", "vars") | {"matcher", "r.deliver_concurrency"},
                                                               VC1={"bare", "bad"}, K=1, NMax=1, IMax=1, Bases={"deliver"}, NmScope=set(m.ids))))
         P.append(dict(name="nm-top", nv=2, w=4, consts=consts(m, Scope=top - m.under("defaults.trend_signals"), VC1={"bare"}, K=1, NMax=1, IMax=1,
@@ -164,7 +165,7 @@ def plans(ctx, m):
         P.append(dict(name="nm-route", nv=2, w=8, consts=consts(m, Scope=ingress_side, VC1={"bare", "bad", "quoted"}, K=2, NMax=1,
                                                             SpMode="default", NmScope=set(m.ids), NmVC={"bare", "bad"})))
         P.append(dict(name="nm-route1", nv=3, w=6, consts=consts(m, Scope=ingress_side, VC1={"bare", "bad", "blank", "ctrl"}, K=1,
-                                                             NmScope=set(m.ids), NmVC={"bare", "bad", "quoted", "blank"})))
+                                                             NmScope=set(m.ids), NmVC={"bare", "bad", "quoted", "blank"}, Bases={"pull", "none"})))
         P.append(dict(name="nm-deliver", nv=2, w=6, consts=consts(m, Scope=m.under("r.deliver", "secrets", "vars", "defaults.deliver") | {"matcher", "r.deliver_concurrency"},
                                                               VC1={"bare", "bad"}, K=2, NMax=1, Bases={"deliver"}, NmScope=set(m.ids), NmVC={"bare", "bad"})))
         P.append(dict(name="nm-top", nv=2, w=6, consts=consts(m, Scope=top, VC1={"bare", "bad"}, K=1, NmScope=set(m.ids), NmVC={"bare", "bad"})))
